@@ -235,4 +235,10 @@ def run_check(pid, fn):
     except tlc.MachineryError as exc:
         print(f'MACHINERY-FAILURE {pid}: {exc}', file=sys.stderr)
         sys.exit(2)
+    except Exception as exc:  # pylint: disable=broad-except
+        # an exception of the driver itself is a machinery failure (exit 2), never an alarm (exit 1 is reserved for VIOLATION lines)
+        import traceback
+        traceback.print_exc()
+        print(f'MACHINERY-FAILURE {pid}: driver raised {type(exc).__name__}: {exc}', file=sys.stderr)
+        sys.exit(2)
     sys.exit(rc)
